@@ -18,12 +18,41 @@ ASSUME = {
          "function-local statics are initialised by a warm-up execution before counting"],
 }
 
+RULES["C20"] = ("plan = (2-6 shared artefacts: compiled JSON Schemas of five drafts, compiled JSONPath and JMESPath expressions, const json/ojson documents; 2-5 shared input documents; 2-16 tasks x 2-11 read-only operations; scheduler seed, preemption period in {1,4,16,64,256,1024,none}, start skew). Real threads run the tasks; exactly one holds the baton and the seeded scheduler may hand it on at every instrumented control-flow edge (-fsanitize-coverage=trace-pc-guard). Oracles: no ThreadSanitizer report; every result equals the result recomputed single-threaded afterwards on separately built artefacts; shared documents unchanged. "
+                "evaluations = operations compared; non-trivial = runs with at least one baton switch inside a library call; distinct = distinct hashes of the (preemption point index, from task, to task, edge id) switch sequence.")
+REAL["C20"] = {"real_code": ["jsonschema compile/validate/walk, jsonpath and jmespath evaluation, basic_json lookup/compare/copy/dump/encode_cbor, and the libstdc++ templates they instantiate (std::regex, std::function, containers) - all instrumented and preemptible"],
+               "stubs": ["baton scheduler (uninstrumented TU, raw futex): decides who runs", "__cxa_guard_acquire/release/abort wrappers (guarded static initialisers are non-preemptible)", "OS scheduler replaced: real threads exist but never run concurrently"]}
+ASSUME["C20"] = ["preemption happens at control-flow edges of instrumented code, not between a load and a store inside one basic block (such lost updates are left to ThreadSanitizer's happens-before analysis)",
+                 "code in libstdc++.so / libc (not instrumented) is atomic with respect to the scheduler and invisible to TSan",
+                 "libstdc++'s std::ctype<char>::narrow/widen cache race (GCC PR 77704) is suppressed: it is inside libstdc++, reached via std::regex construction",
+                 "interleavings are sampled by seed; ThreadSanitizer's detection of far-apart accesses is probabilistic (4 shadow cells), so runs are kept short"]
+
+RULES.update({
+ "C03": "plan = (format, input bytes after optional transit faults, decode options); executed under every delivery of a sweep (stream_source chunk 1..64 and boundary sizes x SimStreambuf get-area sizes, iterator sources incl. std::list and istreambuf_iterator, every two-way split and every uniform chunk size for the push parsers, entry points over view/iterators/stream) x access modes (reader+recording visitor, reader+decoder, cursor, cursor+read_to, filter view, staj iterators). evaluations = (mode, delivery) executions. Non-trivial: a delivery whose chunk boundary falls inside the input (chunk < length); distinct = distinct (format+mode, chunk schedule, input hash).",
+ "C05": "plans as for C03 but every input passes through 1-4 transit faults (truncation, bit flip, byte set/insert, packet drop/duplication/swap), plus a stream-failure sweep (fail after f delivered bytes, for f over the whole input x {ios_base::failure, runtime_error, premature EOF} x chunk sizes) and a sink-failure sweep for every encoder. Oracle: call returns, only documented channels, no sanitizer report, ledger balanced, bounded reads after EOF. Non-trivial: executions in which an injected stream/sink failure actually fired, or whose delivery splits the input; distinct as for C03 plus (failure offset, kind).",
+ "C10": "limits: every (format, container kind) x max_nesting_depth in {0,1,2,3,7,64,1024,5000} x depth limit-1/limit/limit+1 x {reader,cursor,decoder,iterators} x 5 deliveries; claim-and-starve: every way of announcing a length (33 heads over CBOR/MessagePack/UBJSON/BSON) claiming 2^20..2^62 followed by 0..64 bytes, memory meter read at every source read event; stack: deep-value operations on a 512 KiB thread stack (unsanitised build). Non-trivial: all (a limit boundary, a starved claim or a depth-1024+ operation by construction); distinct = distinct (case, mode, delivery, claim exponent) / (operation, kind, depth, policy).",
+ "C15": "plan = (document, history of 1-12 operations valid against the evolving document, abort list = one failing operation per (position, RFC failure class)); evaluations = patches applied (the history, each abort variant, diff-law applications). Non-trivial: an application in which an abort was injected, or a diff-law pair; distinct = distinct (document, position, failure class, history) tuples.",
+})
+_IO = {"real_code": ["jsoncons decoders and their front ends: basic_json_parser/reader/cursor, staj iterators and filter views, json_decoder, csv parser/reader/cursor, cbor/msgpack/ubjson/bson parser/reader/cursor, decode_X entry points, stream_source/chars_source/iterator_source, encoders writing to stream sinks"],
+       "stubs": ["SimStreambuf (std::streambuf with plan-chosen get area, EOF, failure)", "SimOutbuf (failing sink)", "SimChannel (packetised transit faults)", "global operator new/delete ledger (memory meter, leak accounting)", "recording visitor"]}
+REAL.update({"C03": _IO, "C05": _IO, "C10": _IO})
+REAL["C15"] = {"real_code": ["jsonpatch::apply_patch (error_code and throwing overloads), jsonpatch::from_diff, jsonpointer add/add_if_absent/replace/remove/get, basic_json for json and ojson"], "stubs": ["RFC 6902 / RFC 6901 reference model over MVal (sim/core/patchmodel.hpp)"]}
+ASSUME.update({
+ "C03": ["text inputs whose first four bytes contain NUL/BOM bytes are outside the property's quantifier (BOM-less text) and are skipped and counted",
+         "reader-vs-cursor comparison skips CBOR multi-dimensional arrays and binary maps with non-string keys, where the library deliberately surfaces different events (counted); per-mode delivery comparison still applies",
+         "inputs are sampled by seed; deliveries are enumerated per input as described in rule"],
+ "C05": ["only the I/O-fault facet of C05 is claimed: corrupted/truncated transit of generated and hand-written documents, failing streams and sinks; expression/schema compilers and arbitrary hostile bytes are not covered",
+         "bytes handed over inside a read call that then fails are un-acknowledged: a successful decode after a stream failure may equal the decode of any prefix that can have arrived"],
+ "C10": ["memory invariant: live bytes <= 256 KiB + 1024 x (bytes delivered + chunk size), read at each source read; stack clause runs in the unsanitised stacksim build with a 512 KiB thread stack (2x margin measured)"],
+ "C15": ["the model is written from the RFC text; equality is JSON-value equality with objects as unordered maps; error codes are not compared, only error vs success", "generated values avoid doubles so that text round trips through MVal are exact", "atomicity under allocation failure is decided by C19"],
+})
+
 def assumptions(cid):
     return ASSUME.get(cid, [])
 
 def coverage(cid, stats, distinct, samples, runs, wall, total):
     ev = {"C19": stats.get("faults_fired", runs), "C03": stats.get("executions", runs), "C05": stats.get("executions", runs),
-          "C10": stats.get("executions", 0) + stats.get("plans", 0)}.get(cid, runs)
+          "C10": stats.get("executions", 0) + stats.get("plans", 0), "C15": stats.get("patches_applied", runs), "C20": stats.get("ops_compared", runs)}.get(cid, runs)
     smp = []
     for s in samples[:4]:
         try: smp.append(json.loads(s))
@@ -45,6 +74,14 @@ def coverage(cid, stats, distinct, samples, runs, wall, total):
     if cid == "C19":
         cov["simulated_time"] = {"unit": "allocation indices", "value": int(stats.get("allocs_total", 0))}
         cov["faults_injected"] = {"alloc_failure_nth": int(stats.get("faults_fired", 0))}
+    elif cid == "C15":
+        cov["simulated_time"] = {"unit": "patch operations applied", "value": int(stats.get("history_ops", 0))}
+        cov["faults_injected"] = {k[len("faults."):]: int(v) for k, v in stats.items() if k.startswith("faults.")}
+    elif cid == "C20":
+        cov["simulated_time"] = {"unit": "scheduler steps (preemption points executed inside tasks)", "value": int(stats.get("preemption_points", 0))}
+        cov["faults_injected"] = {"preemptions_taken (baton switches)": int(stats.get("baton_switches", 0))}
+        cov["distinct_interleavings"] = len(distinct)
+        cov["inflight_matrix"] = {k[len("inflight."):]: int(v) for k, v in stats.items() if k.startswith("inflight.")}
     elif cid in ("C03", "C05", "C10"):
         cov["simulated_time"] = {"unit": "source read events (logical I/O time)", "value": int(stats.get("io_events", 0))}
         cov["faults_injected"] = {k[len("faults."):]: int(v) for k, v in stats.items() if k.startswith("faults.")}
